@@ -70,12 +70,120 @@ def rule_scopes(ctx):
         ctx.check(R, "DeclarationEnvironment::%s/both-environments" % nm, ("self.declarations.%s()" % nm) in t and ("self.scoped_versions.%s()" % nm) in t and ("global_versions.%s" % nm) not in t, t, site(UV, f))
 
 
+def eval_renaming(ctx, R):
+    """The unique-variable renaming by evaluation: every statement and expression kind is built with variable leaves
+    `x[y]` in each child position, the environment says `x` and `y` are currently version 7 and `z` has none; after the
+    visit every occurrence of x / y in the node - assigned (whatever the assignment operator), read, indexed - reads
+    `x.7` / `y.7`, exactly once, and `z` is left alone.  Returns True when decided."""
+    import passeval
+    from finfun import E, NONE, S, Unsupported
+    from passeval import O, Panic, Sink, V
+
+    try:
+        w = passeval.PassWorld([AST, UV], UV)
+    except Exception:  # noqa: BLE001
+        return False
+    w.lenient_opaque = True
+    vs, ve = w.free.get("visit_statement"), w.free.get("visit_expression")
+    if vs is None or ve is None:
+        return False
+    env = ("O", "environment", (("get_current_version", ("PY", lambda n_: S("Some", 7) if n_ in ("x", "y") else NONE)), ("get_declaration", ("PY", lambda n_: NONE)), ("add_declaration", ("PY", lambda *a: NONE)),
+                                ("add_variable_block", ("PY", lambda: ("T", ()))), ("remove_variable_block", ("PY", lambda: ("T", ())))))
+
+    def leaf(nm="x"):
+        return V("Expression", "Variable", meta=O("m"), name=nm, access=("L", (S("ArrayAccess", V("Expression", "Variable", meta=O("m"), name="y", access=("L", ()))), S("ComponentAccess", "out"))))
+
+    def names_in(x, out, depth=0):
+        if depth > 12:
+            return
+        if isinstance(x, tuple) and len(x) > 3 and x[0] == "V" and isinstance(x[3], dict):
+            if x[2] == "Variable":
+                out.append(x[3].get("name"))
+            if x[2] == "Substitution":
+                out.append(x[3].get("var"))
+            for v_ in x[3].values():
+                names_in(v_, out, depth + 1)
+        elif isinstance(x, Sink):
+            for v_ in x.items:
+                names_in(v_, out, depth + 1)
+        elif isinstance(x, tuple) and x and x[0] in ("L",):
+            for v_ in x[1]:
+                names_in(v_, out, depth + 1)
+        elif isinstance(x, tuple) and len(x) > 2 and x[0] == "S" and isinstance(x[2], tuple):
+            for v_ in x[2]:
+                names_in(v_, out, depth + 1)
+
+    decided = 0
+    for enum, fn in (("Statement", vs), ("Expression", ve)):
+        d = a10.enum_def(AST, enum)
+        for vname, vdef in d.items():
+            if vname == "Declaration":
+                continue  # the declaration arm creates versions; decided by C10.4
+            variants = [None]
+            if vname == "Substitution":
+                variants = ["AssignVar", "AssignSignal", "AssignConstraintSignal"]
+            problems, unsupported = [], None
+            for opv in variants:
+                fields = {}
+                for f in vdef["fields"]:
+                    nm, ty = f["name"], f["ty"].replace(" ", "")
+                    if ty in ("Expression", "Box<Expression>"):
+                        fields[nm] = leaf()
+                    elif ty == "Vec<Expression>":
+                        fields[nm] = ("L", (leaf(), leaf("z")))
+                    elif ty in ("Statement", "Box<Statement>"):
+                        fields[nm] = V("Statement", "Return", meta=O("m"), value=leaf())
+                    elif ty == "Vec<Statement>":
+                        fields[nm] = ("L", (V("Statement", "Return", meta=O("m"), value=leaf()), V("Statement", "Assert", meta=O("m"), arg=leaf("z"))))
+                    elif ty == "Option<Box<Statement>>":
+                        fields[nm] = S("Some", V("Statement", "Return", meta=O("m"), value=leaf()))
+                    elif ty == "Vec<Access>":
+                        fields[nm] = ("L", (S("ArrayAccess", leaf()), S("ComponentAccess", "in")))
+                    elif ty == "Vec<LogArgument>":
+                        fields[nm] = ("L", (S("LogStr", "text"), S("LogExp", leaf())))
+                    elif ty == "AssignOp":
+                        fields[nm] = E("AssignOp", opv or "AssignVar")
+                    elif ty == "String":
+                        fields[nm] = "x"
+                    elif ty == "Option<Vec<(AssignOp,String)>>":
+                        fields[nm] = S("Some", ("L", (("T", (E("AssignOp", "AssignSignal"), "in")),)))
+                    elif ty == "bool":
+                        fields[nm] = False
+                    else:
+                        fields[nm] = O("%s.%s" % (vname, nm))
+                tuple_like = all((f.get("name") or "").isdigit() for f in vdef["fields"])
+                node = S(vname, *[fields[f["name"]] for f in vdef["fields"]]) if tuple_like else V(enum, vname, **fields)
+                try:
+                    w.call_fn(fn, [node, env] + ([Sink()] if enum == "Statement" else []))
+                except Unsupported as u:
+                    unsupported = str(u)
+                    break
+                except Panic as p_:
+                    problems.append("panics (%s)" % p_)
+                    continue
+                got = []
+                names_in(node, got)
+                for g in got:
+                    if g in ("x", "y"):
+                        problems.append("an occurrence of `%s` is left unrenamed%s" % (g, (" (assignment with %s)" % opv) if opv else ""))
+                    elif isinstance(g, str) and g not in ("x.7", "y.7", "z"):
+                        problems.append("an occurrence reads `%s`" % g)
+            if unsupported:
+                ctx.note("unique_vars %s::%s: outside the evaluator's subset (%s)" % (enum, vname, unsupported))
+                continue
+            decided += 1
+            ctx.check(R, "%s/%s/every-occurrence-renamed" % ("visit_statement" if enum == "Statement" else "visit_expression", vname), not problems, "; ".join(sorted(set(problems))[:2]) or "x / y read x.7 / y.7 everywhere below the node, once; z untouched", site(UV, fn))
+    ctx.floor(R, "node kinds whose renaming was evaluated", decided, 15)
+    return decided >= 15
+
+
 def rule_renaming(ctx):
     R = "C10.2"
     ctx.rule(R, "every occurrence of a name (declared, assigned, read, named input) is renamed through the current scoped version, and the renaming visits every child of every statement and expression kind")
     n = a10.check(ctx, R, UV, "visit_statement", None, AST, "Statement", {"visit_statement", "visit_expression"}, scrutinee="stmt")
     n += a10.check(ctx, R, UV, "visit_expression", None, AST, "Expression", {"visit_expression"}, scrutinee="expr")
     ctx.floor(R, "children", n, 30)
+    decided_ren = eval_renaming(ctx, R)
     # renaming sites, in either spelling:
     #   *x = match env.get_current_version(x) { Some(version) => format!("{x}.{version}"), None => x.clone() }
     #   if let Some(version) = env.get_current_version(x) { *x = format!("{x}.{version}") }
@@ -86,7 +194,7 @@ def rule_renaming(ctx):
         fm = render(strip(e)).replace(" ", "")
         return re.fullmatch(r'format!\("\{%s\}\.\{%s\}"\)' % (re.escape(tgt), vb), fm) is not None or re.fullmatch(r'format!\("\{\}\.\{\}",%s,%s\)' % (re.escape(tgt), vb), fm) is not None
 
-    for fname in ("visit_statement", "visit_expression"):
+    for fname in (("visit_statement", "visit_expression") if not decided_ren else ()):
         fn = find_fn(UV, fname)
         if fn is None:
             continue
@@ -123,7 +231,8 @@ def rule_renaming(ctx):
                     continue  # not a renaming through the scoped version (the Declaration arm is checked below)
                 sites += 1
                 ctx.check(R, "%s/rename[%s]" % (fname, tgt), fmt_of(a["r"], tgt, vbs[-1]), "if let Some(%s) = env.get_current_version(%s) { %s }" % (vbs[-1], tgt, render(a)[:80]), site(UV, a))
-    ctx.floor(R, "renaming sites", sites, 3)
+    if not decided_ren:
+        ctx.floor(R, "renaming sites", sites, 3)
     # Declaration: name replaced by name.version on Some(version)
     fn = find_fn(UV, "visit_statement")
     if fn is not None:
@@ -378,6 +487,7 @@ def run(ctx):
     import c03
 
     ctx.include("C10.7", "every shadowing warning produced while the CFG is built reaches the display: the per-definition cache takes every report, is drained after it was filled and written unconditionally (shared with C03.1)", c03.rule_drain)
+    ctx.include("C10.11", "a declaration is visible from its own position on: `var y = x, x = 2;` declares and initialises symbol by symbol, so that an initialiser sees the declarations before it and none after it (shared with C13.1)", lambda c: c13.eval_declaration_split(c, "C13.1"))
     import dropflow
 
     ctx.include("C10.10", "the warnings gathered while a definition is lifted are handed to the per-definition cache on every path, also when a later stage of the same definition fails (shared with C02.10)", lambda c: dropflow.rule_consumed(c, "C02.10"), only=["generate_cfg", "AnalysisRunner::cache_", "IntoCfg", "into_cfg", "floor"])
